@@ -26,7 +26,11 @@ def cases(tier, seed):
             base = memseq.default_image(label, rng, "rand")
             data = [rng.getrandbits(8) for _ in range(width)]
             if not writable:
+                # refused before anything is sent -- whatever options the caller passes
                 cs.append({"seq": "write", "value": name, "wdata": data, "unit": memseq.unit(kind, label, list(base))})
+                for opts in ({"force": 1}, {"ignore": 1}, {"force": 1, "ignore": 1}):
+                    cs.append(dict({"seq": "write", "value": name, "wdata": data, "unit": memseq.unit(kind, label, list(base))}, **opts))
+                cs.append({"seq": "write", "value": name, "wdata": data[:-1], "unit": memseq.unit(kind, label, list(base))})
                 continue
             locks = [0xFF, 0x55, 0x13] if lockable else [base[2]]
             for lk in locks:
